@@ -135,7 +135,10 @@ impl PushOperator for DistinctPushOperator {
         }
 
         // Create filtered chunk with only new rows
-        let selection = SelectionVector::from_predicate(chunk.len(), |i| new_indices.contains(&i));
+        // new_indices are physical row indices: range over the physical rows of the chunk
+        let selection = SelectionVector::from_predicate(chunk.total_row_count(), |i| {
+            new_indices.contains(&i)
+        });
         let filtered = chunk.filter(&selection);
 
         sink.consume(filtered)
